@@ -44,10 +44,10 @@ namespace PSC {
         void set(Value *_data, bool copy = false);
 
         template<std::derived_from<Value> T>
-        T &get() { return *((T*) data); }
+        T &get() { return *((T*) (ref == nullptr ? data : ref->data)); }
 
         template<std::derived_from<Value> T>
-        T &getConst() const { return *((const T*) data); }
+        T &getConst() const { return *((const T*) (ref == nullptr ? data : ref->data)); }
 
         Variable *createReference(const std::string &refName);
 
